@@ -366,7 +366,7 @@ Definition alloc_sgpd_alst (g : bool) (hs hl : N) (body : list N) : res aout :=
 Definition name_of (bs : list N) : list N := firstn 4 (skipn 4 bs).
 
 Inductive tbox := TbTrun | TbStts | TbCtts | TbStsc | TbStsz | TbStco | TbCo64 | TbStss | TbSdtp | TbSaiz | TbSaio | TbSenc
-                | TbSbgp | TbSubs | TbElst | TbTfra | TbSidx | TbSgpd | TbPssh | TbSsix | TbTrefType | TbLeva | TbUuid | TbFtyp | TbStyp.
+                | TbSbgp | TbSubs | TbElst | TbTfra | TbSidx | TbSgpd | TbPssh | TbSsix | TbTrefType | TbLeva | TbUuid | TbFtyp | TbStyp | TbHvcC | TbAvcC | TbLou.
 
 Definition aeqb_name (a b : list N) : bool :=
   match a, b with
@@ -374,6 +374,134 @@ Definition aeqb_name (a b : list N) : bool :=
   | _, _ => false
   end.
 
+(* ---- hvcC (mp4/hvcc.go + hevc/hevcdecoderconfigurationrecord.go DecodeHEVCDecConfRec) on the payload bytes.
+        numOfArrays is 8 bit, numNalus and naluLength 16 bit; the inner loop appends the NALU slice (24-byte header) and
+        THEN leaves on the accumulated error; NaluArray = byte + slice header = 32 bytes.
+        Inner result: (failed, nalus, alloc, iters, reader). Fuel: an accepted NALU consumes >= 2 bytes. ---- *)
+Fixpoint hvcc_nalus (raw : list N) (fuel : nat) (n i : N) (s : rd) (al it : N) : res (bool * N * N * rd) :=
+  match fuel with
+  | O => OutOfFuel
+  | S f =>
+    if n <=? i then Ok (false, al, it, s)
+    else
+      let '(len, s) := rd_n raw 2 s in
+      let s := rd_skip raw len s in
+      if r_err s then Ok (true, al + 24, it + 1, s)
+      else hvcc_nalus raw f n (i + 1) s (al + 24) (it + 1)
+  end.
+
+Fixpoint hvcc_arrays (raw : list N) (n : nat) (s : rd) (arrays al it : N) : res (bool * N * N * N * rd) :=
+  match n with
+  | O => Ok (false, arrays, al, it, s)
+  | S n' =>
+    let s := rd_skip raw 1 s in
+    let '(nn, s) := rd_n raw 2 s in
+    match hvcc_nalus raw (S (length raw)) nn 0 s al (it + 1) with
+    | Ok (true, al, it, s) => Ok (true, arrays, al, it, s)
+    | Ok (false, al, it, s) => hvcc_arrays raw n' s (arrays + 1) (al + 32) it
+    | Err => Err | Panic => Panic | OutOfFuel => OutOfFuel
+    end
+  end.
+
+Definition hvcc_record (raw : list N) : res aout :=
+  let '(ver, s) := rd_n raw 1 rd0 in
+  if negb (ver =? 1) then rej
+  else
+    let s := rd_skip raw 1 s in
+    let s := rd_skip raw 4 s in
+    let s := rd_skip raw 2 (rd_skip raw 4 s) in
+    let s := rd_skip raw 1 s in
+    let s := rd_skip raw 2 s in
+    let s := rd_skip raw 1 (rd_skip raw 1 (rd_skip raw 1 (rd_skip raw 1 s))) in
+    let s := rd_skip raw 2 s in
+    let '(ab, s) := rd_n raw 1 s in
+    if negb (ab mod 4 =? 3) then rej
+    else
+      let '(na, s) := rd_n raw 1 s in
+      match hvcc_arrays raw (N.to_nat na) s 0 0 0 with
+      | Ok (failed, arrays, al, it, s) => Ok (mkO (negb failed && negb (r_err s)) arrays al it)
+      | Err => Err | Panic => Panic | OutOfFuel => OutOfFuel
+      end.
+
+(* DecodeHvcCSR: the record is decoded from sr.ReadBytes(hdr.payloadLen()) (an empty slice when that fails);
+   DecodeHvcC: from the body *)
+Definition alloc_hvcc (sr_path : bool) (hs hl : N) (body : list N) : res aout :=
+  if sr_path then
+    let s := rd_bytes_z body (apayload_len hs hl) rd0 in
+    hvcc_record (if r_err s then [] else firstn (Z.to_nat (apayload_len hs hl)) body)
+  else hvcc_record body.
+
+(* ---- tlou / alou (mp4/lou.go DecodeLoudnessBaseBoxSR): base count is 6 bit (version >= 1) or 1, measurement count
+        8 bit; no exit on error and the function returns a nil error.  []*LoudnessBase: 8 bytes per pointer,
+        LoudnessBase = 40 bytes, LoudnessMeasurement = 4 bytes ---- *)
+Fixpoint lou_loop (raw : list N) (n : nat) (v : N) (s : rd) (al it : N) : N * N * rd :=
+  match n with
+  | O => (al, it, s)
+  | S n' =>
+    let s := if 1 <=? v then rd_skip raw 1 s else s in
+    let s := rd_skip raw 1 (rd_skip raw 3 (rd_skip raw 2 s)) in
+    let '(mc, s) := rd_n raw 1 s in
+    let s := rd_loop raw mc 3 s in
+    lou_loop raw n' v s (al + 40 + 4 * mc) (it + 1 + mc)
+  end.
+Definition alloc_lou (hs hl : N) (body : list N) : res aout :=
+  let '(vf, s) := rd_n body 4 rd0 in
+  let v := version_of vf in
+  if 1 <=? v then
+    let '(b, s) := rd_n body 1 s in
+    if negb ((b / 64) mod 4 =? 0) then rej
+    else
+      let cnt := b mod 64 in
+      let '(al, it, s) := lou_loop body (N.to_nat cnt) v s (8 * cnt) 0 in
+      Ok (mkO true cnt al it)
+  else
+    let '(al, it, s) := lou_loop body 1 v s 8 0 in
+    Ok (mkO true 1 al it).
+
+(* ---- avcC (mp4/avcc.go + avc/avcdecoderconfigurationrecord.go DecodeAVCDecConfRec): explicit index checks,
+        numSPS is 5 bit, numPPS 8 bit, NALU lengths 16 bit; each NALU appended is a 24-byte slice header.
+        Loop result: None = error return, Some (pos, nalus) ---- *)
+Definition byte_at (raw : list N) (i : N) : N := nth (N.to_nat i) raw 0 mod 256.
+Fixpoint avcc_nalus (raw : list N) (n : nat) (pos cnt : N) : option (N * N) :=
+  match n with
+  | O => Some (pos, cnt)
+  | S n' =>
+    if lenN raw <? pos + 2 then None
+    else
+      let nl := byte_at raw pos * 256 + byte_at raw (pos + 1) in
+      let pos := pos + 2 in
+      if lenN raw <? pos + nl then None
+      else avcc_nalus raw n' (pos + nl) (cnt + 1)
+  end.
+Definition avcc_record (raw : list N) : res aout :=
+  if lenN raw <? 6 then rej
+  else if negb (byte_at raw 0 =? 1) then rej
+  else if negb (byte_at raw 4 mod 4 =? 3) then rej
+  else
+    let nsps := byte_at raw 5 mod 32 in
+    match avcc_nalus raw (N.to_nat nsps) 6 0 with
+    | None => Ok (mkO false 0 (24 + 24 * nsps) nsps)
+    | Some (pos, c1) =>
+      if lenN raw <=? pos then Ok (mkO false 0 (24 + 24 * c1) c1)
+      else
+        let npps := byte_at raw pos in
+        match avcc_nalus raw (N.to_nat npps) (pos + 1) 0 with
+        | None => Ok (mkO false 0 (48 + 24 * c1 + 24 * npps) (c1 + npps))
+        | Some (pos, c2) =>
+          let al := 48 + 24 * c1 + 24 * c2 in
+          let prof := byte_at raw 1 in
+          if (prof =? 66) || (prof =? 77) || (prof =? 88) then Ok (mkO true (c1 + c2) al (c1 + c2))
+          else if pos =? lenN raw then Ok (mkO true (c1 + c2) al (c1 + c2))
+          else if lenN raw <? pos + 4 then Ok (mkO false 0 al (c1 + c2))
+          else if negb (byte_at raw (pos + 3) =? 0) then Ok (mkO false 0 al (c1 + c2))
+          else Ok (mkO true (c1 + c2) al (c1 + c2))
+        end
+    end.
+Definition alloc_avcc (sr_path : bool) (hs hl : N) (body : list N) : res aout :=
+  if sr_path then
+    let s := rd_bytes_z body (apayload_len hs hl) rd0 in
+    avcc_record (if r_err s then [] else firstn (Z.to_nat (apayload_len hs hl)) body)
+  else avcc_record body.
 (* ---- uuid (mp4/uuid.go DecodeUUIDBoxSR, used by both paths): tfxd, tfrf (fragment count is 8 bit, two uint64
         appended per fragment, no size guard), PIFF senc (DecodeSencSR on a sub-header of size hs-16), anything else
         (payload = ReadBytes(hs - 24)) ---- *)
@@ -509,6 +637,9 @@ Definition tbox_of (nm : list N) : option tbox :=
   if aeqb_name nm [117;117;105;100] then Some TbUuid else
   if aeqb_name nm [102;116;121;112] then Some TbFtyp else
   if aeqb_name nm [115;116;121;112] then Some TbStyp else
+  if aeqb_name nm [104;118;99;67] then Some TbHvcC else
+  if aeqb_name nm [97;118;99;67] then Some TbAvcC else
+  if aeqb_name nm [116;108;111;117] || aeqb_name nm [97;108;111;117] then Some TbLou else
   None.
 
 Definition alloc_table (t : tbox) (sr_path : bool) (hs hl : N) (body : list N) : res aout :=
@@ -538,6 +669,9 @@ Definition alloc_table (t : tbox) (sr_path : bool) (hs hl : N) (body : list N) :
   | TbUuid => alloc_uuid hs hl body
   | TbFtyp => alloc_ftyp hs hl body
   | TbStyp => alloc_styp sr_path hs hl body
+  | TbHvcC => alloc_hvcc sr_path hs hl body
+  | TbAvcC => alloc_avcc sr_path hs hl body
+  | TbLou => alloc_lou hs hl body
   end.
 
 (* DecodeHeaderSR / DecodeHeader on the first bytes: (size, header length); size 0 and size < header are errors *)
@@ -671,159 +805,5 @@ Definition senc_box (sr_path : bool) (bs : list N) (iv_in : N) : option (res (bo
                  (if sr_path then skipn (N.to_nat hl) bs else firstn (N.to_nat (hs - hl)) (skipn (N.to_nat hl) bs)) iv_in)
   end.
 
-(* ---- hvcC (mp4/hvcc.go + hevc/hevcdecoderconfigurationrecord.go DecodeHEVCDecConfRec) on the payload bytes.
-        numOfArrays is 8 bit, numNalus and naluLength 16 bit; the inner loop appends the NALU slice (24-byte header) and
-        THEN leaves on the accumulated error; NaluArray = byte + slice header = 32 bytes.
-        Inner result: (failed, nalus, alloc, iters, reader). Fuel: an accepted NALU consumes >= 2 bytes. ---- *)
-Fixpoint hvcc_nalus (raw : list N) (fuel : nat) (n i : N) (s : rd) (al it : N) : res (bool * N * N * rd) :=
-  match fuel with
-  | O => OutOfFuel
-  | S f =>
-    if n <=? i then Ok (false, al, it, s)
-    else
-      let '(len, s) := rd_n raw 2 s in
-      let s := rd_skip raw len s in
-      if r_err s then Ok (true, al + 24, it + 1, s)
-      else hvcc_nalus raw f n (i + 1) s (al + 24) (it + 1)
-  end.
 
-Fixpoint hvcc_arrays (raw : list N) (n : nat) (s : rd) (arrays al it : N) : res (bool * N * N * N * rd) :=
-  match n with
-  | O => Ok (false, arrays, al, it, s)
-  | S n' =>
-    let s := rd_skip raw 1 s in
-    let '(nn, s) := rd_n raw 2 s in
-    match hvcc_nalus raw (S (length raw)) nn 0 s al (it + 1) with
-    | Ok (true, al, it, s) => Ok (true, arrays, al, it, s)
-    | Ok (false, al, it, s) => hvcc_arrays raw n' s (arrays + 1) (al + 32) it
-    | Err => Err | Panic => Panic | OutOfFuel => OutOfFuel
-    end
-  end.
 
-Definition hvcc_record (raw : list N) : res aout :=
-  let '(ver, s) := rd_n raw 1 rd0 in
-  if negb (ver =? 1) then rej
-  else
-    let s := rd_skip raw 1 s in
-    let s := rd_skip raw 4 s in
-    let s := rd_skip raw 2 (rd_skip raw 4 s) in
-    let s := rd_skip raw 1 s in
-    let s := rd_skip raw 2 s in
-    let s := rd_skip raw 1 (rd_skip raw 1 (rd_skip raw 1 (rd_skip raw 1 s))) in
-    let s := rd_skip raw 2 s in
-    let '(ab, s) := rd_n raw 1 s in
-    if negb (ab mod 4 =? 3) then rej
-    else
-      let '(na, s) := rd_n raw 1 s in
-      match hvcc_arrays raw (N.to_nat na) s 0 0 0 with
-      | Ok (failed, arrays, al, it, s) => Ok (mkO (negb failed && negb (r_err s)) arrays al it)
-      | Err => Err | Panic => Panic | OutOfFuel => OutOfFuel
-      end.
-
-(* DecodeHvcCSR: the record is decoded from sr.ReadBytes(hdr.payloadLen()) (an empty slice when that fails);
-   DecodeHvcC: from the body *)
-Definition alloc_hvcc (sr_path : bool) (hs hl : N) (body : list N) : res aout :=
-  if sr_path then
-    let s := rd_bytes_z body (apayload_len hs hl) rd0 in
-    hvcc_record (if r_err s then [] else firstn (Z.to_nat (apayload_len hs hl)) body)
-  else hvcc_record body.
-
-Definition hvcc_box (sr_path : bool) (bs : list N) : option (res aout) :=
-  match hdr_of bs with
-  | None => Some rej
-  | Some (hs, hl) =>
-    if negb (aeqb_name (name_of bs) [104;118;99;67]) then None
-    else if lenN bs <? hs then Some rej
-    else Some (alloc_hvcc sr_path hs hl
-                 (if sr_path then skipn (N.to_nat hl) bs else firstn (N.to_nat (hs - hl)) (skipn (N.to_nat hl) bs)))
-  end.
-
-(* ---- tlou / alou (mp4/lou.go DecodeLoudnessBaseBoxSR): base count is 6 bit (version >= 1) or 1, measurement count
-        8 bit; no exit on error and the function returns a nil error.  []*LoudnessBase: 8 bytes per pointer,
-        LoudnessBase = 40 bytes, LoudnessMeasurement = 4 bytes ---- *)
-Fixpoint lou_loop (raw : list N) (n : nat) (v : N) (s : rd) (al it : N) : N * N * rd :=
-  match n with
-  | O => (al, it, s)
-  | S n' =>
-    let s := if 1 <=? v then rd_skip raw 1 s else s in
-    let s := rd_skip raw 1 (rd_skip raw 3 (rd_skip raw 2 s)) in
-    let '(mc, s) := rd_n raw 1 s in
-    let s := rd_loop raw mc 3 s in
-    lou_loop raw n' v s (al + 40 + 4 * mc) (it + 1 + mc)
-  end.
-Definition alloc_lou (hs hl : N) (body : list N) : res aout :=
-  let '(vf, s) := rd_n body 4 rd0 in
-  let v := version_of vf in
-  if 1 <=? v then
-    let '(b, s) := rd_n body 1 s in
-    if negb ((b / 64) mod 4 =? 0) then rej
-    else
-      let cnt := b mod 64 in
-      let '(al, it, s) := lou_loop body (N.to_nat cnt) v s (8 * cnt) 0 in
-      Ok (mkO true cnt al it)
-  else
-    let '(al, it, s) := lou_loop body 1 v s 8 0 in
-    Ok (mkO true 1 al it).
-
-Definition lou_box (sr_path : bool) (bs : list N) : option (res aout) :=
-  match hdr_of bs with
-  | None => Some rej
-  | Some (hs, hl) =>
-    if negb (aeqb_name (name_of bs) [116;108;111;117] || aeqb_name (name_of bs) [97;108;111;117]) then None
-    else if lenN bs <? hs then Some rej
-    else Some (alloc_lou hs hl (if sr_path then skipn (N.to_nat hl) bs else firstn (N.to_nat (hs - hl)) (skipn (N.to_nat hl) bs)))
-  end.
-
-(* ---- avcC (mp4/avcc.go + avc/avcdecoderconfigurationrecord.go DecodeAVCDecConfRec): explicit index checks,
-        numSPS is 5 bit, numPPS 8 bit, NALU lengths 16 bit; each NALU appended is a 24-byte slice header.
-        Loop result: None = error return, Some (pos, nalus) ---- *)
-Definition byte_at (raw : list N) (i : N) : N := nth (N.to_nat i) raw 0 mod 256.
-Fixpoint avcc_nalus (raw : list N) (n : nat) (pos cnt : N) : option (N * N) :=
-  match n with
-  | O => Some (pos, cnt)
-  | S n' =>
-    if lenN raw <? pos + 2 then None
-    else
-      let nl := byte_at raw pos * 256 + byte_at raw (pos + 1) in
-      let pos := pos + 2 in
-      if lenN raw <? pos + nl then None
-      else avcc_nalus raw n' (pos + nl) (cnt + 1)
-  end.
-Definition avcc_record (raw : list N) : res aout :=
-  if lenN raw <? 6 then rej
-  else if negb (byte_at raw 0 =? 1) then rej
-  else if negb (byte_at raw 4 mod 4 =? 3) then rej
-  else
-    let nsps := byte_at raw 5 mod 32 in
-    match avcc_nalus raw (N.to_nat nsps) 6 0 with
-    | None => Ok (mkO false 0 (24 + 24 * nsps) nsps)
-    | Some (pos, c1) =>
-      if lenN raw <=? pos then Ok (mkO false 0 (24 + 24 * c1) c1)
-      else
-        let npps := byte_at raw pos in
-        match avcc_nalus raw (N.to_nat npps) (pos + 1) 0 with
-        | None => Ok (mkO false 0 (48 + 24 * c1 + 24 * npps) (c1 + npps))
-        | Some (pos, c2) =>
-          let al := 48 + 24 * c1 + 24 * c2 in
-          let prof := byte_at raw 1 in
-          if (prof =? 66) || (prof =? 77) || (prof =? 88) then Ok (mkO true (c1 + c2) al (c1 + c2))
-          else if pos =? lenN raw then Ok (mkO true (c1 + c2) al (c1 + c2))
-          else if lenN raw <? pos + 4 then Ok (mkO false 0 al (c1 + c2))
-          else if negb (byte_at raw (pos + 3) =? 0) then Ok (mkO false 0 al (c1 + c2))
-          else Ok (mkO true (c1 + c2) al (c1 + c2))
-        end
-    end.
-Definition alloc_avcc (sr_path : bool) (hs hl : N) (body : list N) : res aout :=
-  if sr_path then
-    let s := rd_bytes_z body (apayload_len hs hl) rd0 in
-    avcc_record (if r_err s then [] else firstn (Z.to_nat (apayload_len hs hl)) body)
-  else avcc_record body.
-Definition avcc_box (sr_path : bool) (bs : list N) : option (res aout) :=
-  match hdr_of bs with
-  | None => Some rej
-  | Some (hs, hl) =>
-    if negb (aeqb_name (name_of bs) [97;118;99;67]) then None
-    else if lenN bs <? hs then Some rej
-    else Some (alloc_avcc sr_path hs hl
-                 (if sr_path then skipn (N.to_nat hl) bs else firstn (N.to_nat (hs - hl)) (skipn (N.to_nat hl) bs)))
-  end.
